@@ -94,6 +94,8 @@ type Sim struct {
 	Preempts  int
 	SweepTask string
 	SweepAt   int
+	// SweepBefore: number of other tasks that run to completion before SweepTask starts
+	SweepBefore int
 	// Frozen, if set, withholds tasks from scheduling (a stalled / starved goroutine)
 	Frozen func(name string) bool
 
@@ -434,6 +436,7 @@ func Lock(try func() bool, site string) {
 		return
 	}
 	t.lockBlocked = false
+	spins := 0
 	for {
 		s.park(t, site, "lock")
 		s.lock()
@@ -444,6 +447,13 @@ func Lock(try func() bool, site string) {
 			return
 		}
 		if dr {
+			// teardown: everything runs freely. A task that still cannot get its lock after
+			// many yields is part of a deadlock of the code under test (already reported);
+			// unwind it so that its deferred unlocks release the others.
+			spins++
+			if spins > 500 {
+				runtime.Goexit()
+			}
 			runtime.Gosched()
 			continue
 		}
@@ -642,7 +652,20 @@ func (s *Sim) Pick(ready []*Task) *Task {
 			}
 			return -1
 		}
-		if des != nil && des.Steps < s.SweepAt {
+		exitedOthers := 0
+		for _, t := range s.tasks {
+			if t.exited && t.Name != s.SweepTask {
+				exitedOthers++
+			}
+		}
+		if des != nil && des.Steps == 0 && exitedOthers < s.SweepBefore {
+			// first let SweepBefore other tasks run to completion (order[0] is the task
+			// that ran last, so a started task is continued)
+			idx = pickIdx(func(t *Task) bool { return t != des })
+			if idx < 0 {
+				idx = 0
+			}
+		} else if des != nil && des.Steps < s.SweepAt {
 			idx = pickIdx(func(t *Task) bool { return t == des })
 		} else {
 			idx = pickIdx(func(t *Task) bool { return t != des })
